@@ -1080,6 +1080,13 @@ impl Scenario for PerKey {
             let mut dirty = false;
             let mut seen: Option<B<SV>> = None;
             let mut outer_written = false;
+            // (warm SharedNode variant) the node every key maps to has an observer of its own for the whole run: it is
+            // recomputed while the operator's output is unobserved
+            let mut _shared_obs: Option<Observer<SV>> = None;
+            if self.warm && fam == Fam::SharedNode {
+                _shared_obs = Some(keep.shared.observe());
+                cover("shared-node-observed-on-its-own");
+            }
             if self.warm {
                 model.insert(0, fresh());
                 match &keep.inp {
